@@ -16,6 +16,7 @@ THEOREMS = [
     "HedVerif.C15.term_prefix",
     "HedVerif.C15.or_iff",
     "HedVerif.C15.and_imp",
+    "HedVerif.C15.and_iff",
     "HedVerif.C15.and_comm",
     "HedVerif.C15.and_distinct",
     "HedVerif.C15.and_assoc_partial",
@@ -197,6 +198,10 @@ class Impl:
         from hed.models import query_service
         self.HedString, self.HedTag, self.QueryHandler, self.qs = HedString, HedTag, QueryHandler, query_service
         self.schema = load_schema_version("8.3.0")
+        # Before the repair fixes/C15_reject_stray_closers.diff a lone `)` and the legacy token `]]` compile; the
+        # model has both parsers (`legacy` flag) so that the correspondence stays exact on either tree and the
+        # defect is reported once, by the oracle, as a concrete violation.
+        self.legacy = self.compile(")")[0] == "ok" and self.compile("]]")[0] == "ok"
 
     def hed(self, s):
         return self.HedString(s, self.schema)
@@ -241,7 +246,7 @@ def check_pairs(ctx, im, pairs, kind):
         before = str(hs)
         tj, ids = im.tree(hs)
         prepared.append((q, s, hs, before, tj, ids))
-        reqs.append({"op": "c15.eval", "text": prefold(q), "tree": tj})
+        reqs.append({"op": "c15.eval", "text": prefold(q), "tree": tj, "legacy": im.legacy})
     ans = ctx.model.batch(reqs)
     for (q, s, hs, before, tj, ids), m in zip(prepared, ans):
         case = {"kind": "pair", "q": q, "hed": s}
@@ -306,6 +311,45 @@ def term_oracle(ctx, im, rng, n):
             ctx.count(f"law-term-{mode}")
             if got != want:
                 ctx.violation(f"term-{mode}", {"kind": "pair", "q": q, "hed": s}, {"got": got, "want": want})
+
+
+def pair_oracle(ctx, im, rng, n):
+    """`a && b`, `[a && b]`, `{a && b}` for bare terms against their documented meaning ("via distinct tags"):
+    two different tags; two different tags inside a common parenthesised group; two different tags that are
+    direct children of the same parenthesised group."""
+    def anc(t):
+        out, g = [], t._parent
+        while g is not None:
+            out.append(g)
+            g = g._parent
+        return out
+    for _ in range(n):
+        s = tree_str(gen_tree(rng, 4))
+        hs = im.hed(s)
+        tags = hs.get_all_tags()
+        terms = sorted({x for t in tags for x in t.tag_terms}) or ["red"]
+        w1 = rng.choice(terms + WORDS[:6])
+        w2 = rng.choice(terms + WORDS[:6])
+        t1s = [t for t in tags if w1.casefold() in t.tag_terms]
+        t2s = [t for t in tags if w2.casefold() in t.tag_terms]
+        pairs = [(a, b) for a in t1s for b in t2s if a is not b]
+        want = {"and": bool(pairs), "desc": False, "exact": False}
+        for a, b in pairs:
+            ib = {id(g) for g in anc(b)}
+            if any(id(g) in ib and g.is_group for g in anc(a)):
+                want["desc"] = True
+            if a._parent is b._parent and a._parent.is_group:
+                want["exact"] = True
+        for k, q in (("and", f"{w1} && {w2}"), ("desc", f"[{w1} && {w2}]"), ("exact", "{" + f"{w1} && {w2}" + "}")):
+            st, h = im.compile(q)
+            if st != "ok":
+                ctx.violation("plain-term-rejected", {"kind": "parse", "q": q}, st)
+                continue
+            got = bool(h.search(hs))
+            ctx.evaluations += 1
+            ctx.count(f"law-terms-{k}")
+            if got != want[k]:
+                ctx.violation(f"distinct-tags-{k}", {"kind": "pair", "q": q, "hed": s}, {"got": got, "want": want[k]})
 
 
 def law_oracle(ctx, im, rng, n_triples, trees_per):
@@ -403,7 +447,8 @@ def service_check(ctx, im, rng, n_batches):
             continue
         objs = [im.hed(s) for s in strings]
         df = im.qs.search_hed_objs(objs, [handlers[i] for i in good], [names[i] for i in good])
-        reqs = [{"op": "c15.eval", "text": prefold(queries[i]), "tree": im.tree(o)[0]} for i in good for o in objs]
+        reqs = [{"op": "c15.eval", "text": prefold(queries[i]), "tree": im.tree(o)[0], "legacy": im.legacy}
+                for i in good for o in objs]
         ans = ctx.model.batch(reqs)
         k = 0
         for i in good:
@@ -437,6 +482,7 @@ def run(ctx):
     im = Impl()
     rng = ctx.rng
     quick = ctx.quick()
+    ctx.extra["pre_repair_parser_detected"] = im.legacy
     ctx.extra["rule"] = ("queries drawn from the grammar {term, \"term\", term*, term/value, @term, ?, ??, ???, &&, ',', ||, ~, "
                          "( ), [ ], { }, {:}, {: }} to nesting 4 (rendered spaced / compact) plus a malformed stream (token "
                          "soup, one-token edits of well-formed queries); annotations to depth 4 over real 8.3.0 tags with "
@@ -466,8 +512,12 @@ def run(ctx):
     ctx.extra["malformed_queries"] = n_mal
     # laws on the implementation
     term_oracle(ctx, im, rng, 150 if quick else 3000)
+    pair_oracle(ctx, im, rng, 300 if quick else 6000)
     law_oracle(ctx, im, rng, *((220, 5) if quick else (4000, 6)))
     service_check(ctx, im, rng, 12 if quick else 150)
+    # report the smallest divergence / violation first
+    ctx.disagreements.sort(key=lambda d: len(json.dumps(d["case"])))
+    ctx.violations.sort(key=lambda v: len(json.dumps(v["case"], default=str)))
 
 
 def replay(ctx, rec):
@@ -479,7 +529,7 @@ def replay(ctx, rec):
     kind = case.get("kind")
     if kind == "parse":
         st, h = im.compile(case["q"])
-        m = ctx.model.batch([{"op": "c15.parse", "text": prefold(case["q"])}])[0]
+        m = ctx.model.batch([{"op": "c15.parse", "text": prefold(case["q"]), "legacy": im.legacy}])[0]
         print("replayed", json.dumps(case), "impl:", st, "model:", json.dumps(m), "unbalanced:", unbalanced(case["q"]))
         check_pairs(ctx, im, [(case["q"], "A")], "replay")
     elif kind == "pair":
